@@ -174,79 +174,87 @@ Print Assumptions C10_task_raise_class_inner_step.
 (* ---- a batch and its items as futures (BatchFut.v): item completions are nested in the batch's
    completion (flush body, BatchBase._computed's item loop) ---- *)
 
-Theorem C10_batch_single_assignment : forall s oc, bout s = Some oc ->
-  (forall v, bstep s (BOn 0 (OSetValue v)) = (s, RRaise E_ALREADY)) /\
-  (forall e, bstep s (BOn 0 (OSetError e)) = (s, RRaise E_ALREADY)) /\
-  bstep s BFlush = (s, RRaise E_BATCHING) /\ bstep s BCancel = (s, RUnit).
-Proof. exact batch_single_assignment. Qed.
+(* Every statement below holds with CROSS-FUTURE CALLBACKS: a subscriber of one future may complete
+   another future of the case from inside its notification (CbSet: a later / earlier sibling item, the
+   item itself, the batch), a _cancel() override may set items; nested to any depth.
+   [ext_at s s' u] is C10 for future u between two states: computed => outcome, callback records and
+   subscription list untouched; uncomputed => untouched, or completed ONCE: it holds an outcome oc and
+   the records of u grew by exactly one per subscriber u had in s, in order, each carrying oc.       *)
+
+Theorem C10_batch_single_assignment : forall s t oc o,
+  fout s t = Some oc -> bset s t o = (s, RRaise E_ALREADY).
+Proof. exact bset_single. Qed.
 Print Assumptions C10_batch_single_assignment.
 
-Theorem C10_item_single_assignment : forall t it oc o,
-  iout it = Some oc -> iset t it o = (it, [], RRaise E_ALREADY).
-Proof. exact iset_computed. Qed.
-Print Assumptions C10_item_single_assignment.
+Theorem C10_batch_single_assignment_nested : forall d s t oc o,
+  fout s t = Some oc -> bset_at (S d) s t o = (s, RRaise E_ALREADY).
+Proof. exact bset_at_single. Qed.
+Print Assumptions C10_batch_single_assignment_nested.
 
-Theorem C10_item_complete_notifies_once : forall t it o,
-  iout (fst (icomplete t it o)) = Some o /\
-  snd (icomplete t it o) = tnotes t (isubs it) o /\
-  isubs (fst (icomplete t it o)) = after_notify (isubs it).
-Proof. exact icomplete_spec. Qed.
-Print Assumptions C10_item_complete_notifies_once.
+Theorem C10_batch_set_completes : forall s t o, fout s t = None -> fexists s t = true ->
+  fout (fst (bset s t o)) t = Some o /\ snd (bset s t o) = RUnit.
+Proof. exact bset_completes. Qed.
+Print Assumptions C10_batch_set_completes.
 
-Theorem C10_item_flush_body_sets : forall t os it,
-  let '(it', lg, rs, f) := iset_all t it os in
-  lg = body_notes t it os /\ iout it' = body_out it os /\
-  (f = None -> length os <= 1 /\ (iout it = None \/ os = []))%nat.
-Proof. exact iset_all_spec. Qed.
-Print Assumptions C10_item_flush_body_sets.
+Theorem C10_batch_set_every_future_once : forall s t o,
+  ext s (fst (bset s t o)) /\ (all_items_computed s -> all_items_computed (fst (bset s t o))).
+Proof. exact bset_ext. Qed.
+Print Assumptions C10_batch_set_every_future_once.
 
-Theorem C10_batch_item_loop : forall e l t,
-  snd (fill t l e) = fill_notes t l e /\
-  forallb icomputed (fst (fill t l e)) = true /\
-  map iout (fst (fill t l e)) = map (fun it => match iout it with Some o => Some o | None => Some (Err e) end) l.
-Proof. exact fill_spec. Qed.
-Print Assumptions C10_batch_item_loop.
+Theorem C10_batch_nested_every_future_once : forall d, wb (bset_at d).
+Proof. exact bset_at_wb. Qed.
+Print Assumptions C10_batch_nested_every_future_once.
 
-Theorem C10_batch_complete_notifies_once_last : forall s o,
-  let s' := bcomplete s o in
-  bout s' = Some o /\
-  blog s' = blog s ++ fill_notes 1 (bitems s) (fill_error o) ++ tnotes 0 (bsubs s) o /\
-  bsubs s' = after_notify (bsubs s) /\
-  forallb icomputed (bitems s') = true /\ bruns s' = bruns s /\ binner s' = binner s.
-Proof. exact bcomplete_spec. Qed.
-Print Assumptions C10_batch_complete_notifies_once_last.
+Theorem C10_batch_completion_computes_all_items : forall s o, bout s = None -> allcomp (fst (bset s 0 o)).
+Proof. exact bset_batch_all_items. Qed.
+Print Assumptions C10_batch_completion_computes_all_items.
 
-Theorem C10_batch_stable : forall s oc o, bout s = Some oc ->
-  let '(s', r) := bstep s o in
-  bout s' = Some oc /\ bitems s' = bitems s /\ blog s' = blog s /\ bruns s' = bruns s /\
-  (forall x, o = BOn 0 x -> is_read x = true -> r = breport x oc).
-Proof. exact bstep_computed. Qed.
-Print Assumptions C10_batch_stable.
+Theorem C10_batch_item_loop_rechecks : forall d e n i s j oc,
+  (i + n <= length (bitems s))%nat -> item_out s j = Some oc ->
+  item_out (fill_loop (bset_at d) i n e s) j = Some oc.
+Proof. exact fill_loop_keeps. Qed.
+Print Assumptions C10_batch_item_loop_rechecks.
 
-Theorem C10_batch_notify_once_after : forall s o, bout s = None ->
-  let s' := fst (bstep s o) in
-  (bout s' = None /\ blog s' = blog s /\ bitems s' = bitems s /\ bruns s' = bruns s) \/
-  (exists mid oc, bout s' = Some oc /\ blog s' = blog s ++ mid ++ tnotes 0 (bsubs s) oc /\
-                  bsubs s' = after_notify (bsubs s) /\
-                  forallb icomputed (bitems s') = true /\ (bruns s' <= S (bruns s))%nat).
-Proof. exact bstep_uncomputed. Qed.
-Print Assumptions C10_batch_notify_once_after.
+Theorem C10_batch_step_every_future_once : forall s o,
+  all_items_computed s -> is_subscribe o = false -> step_ok s (fst (bstep s o)).
+Proof. exact bstep_spec. Qed.
+Print Assumptions C10_batch_step_every_future_once.
 
-Theorem C10_batch_items_computed_with_batch : forall s o,
-  all_items_computed s -> all_items_computed (fst (bstep s o)).
-Proof. exact bstep_inv. Qed.
+Theorem C10_batch_subscribe_only_appends : forall s t id k, all_items_computed s ->
+  let s' := fst (bstep s (BOn t (OSubscribe id k))) in
+  all_items_computed s' /\ (s' = s \/ s' = set_fsubs s t (fsubs s t ++ [(id, k)])).
+Proof. exact bstep_subscribe. Qed.
+Print Assumptions C10_batch_subscribe_only_appends.
+
+Theorem C10_batch_items_computed_with_batch : forall ops its fin cs,
+  all_items_computed (fst (brun (binit its fin cs) ops)).
+Proof. exact brun_init_inv. Qed.
 Print Assumptions C10_batch_items_computed_with_batch.
 
-Theorem C10_item_read_reports : forall s i oc, item_out s i = Some oc ->
-  bstep s (BOn (S i) OValue) = (s, report_value oc) /\ bstep s (BOn (S i) OCall) = (s, report_value oc) /\
-  bstep s (BOn (S i) OError) = (s, report_error oc) /\ bstep s (BOn (S i) OIsComputed) = (s, RBool true).
-Proof. exact item_read_reports. Qed.
+Theorem C10_batch_read_completes : forall s, all_items_computed s -> bout s = None ->
+  bout (bcompute_top s) <> None /\ allcomp (bcompute_top s).
+Proof. exact read_completes. Qed.
+Print Assumptions C10_batch_read_completes.
+
+Theorem C10_batch_read_reports : forall s rep oc,
+  bout (fst (bread s rep)) = Some oc -> snd (bread s rep) = rep oc.
+Proof. exact bread_reports. Qed.
+Print Assumptions C10_batch_read_reports.
+
+Theorem C10_item_read_reports : forall s i rep oc,
+  item_out (fst (iread s i rep)) i = Some oc -> snd (iread s i rep) = rep oc.
+Proof. exact iread_reports. Qed.
 Print Assumptions C10_item_read_reports.
 
-Theorem C10_batch_raise_class_step : forall f s o,
-  bstep (recls_bstate f s) (recls_bop f o) = (recls_bstate f (fst (bstep s o)), snd (bstep s o)).
-Proof. exact bstep_recls. Qed.
-Print Assumptions C10_batch_raise_class_step.
+Theorem C10_batch_stable : forall s oc o, bout s = Some oc -> allcomp s -> is_subscribe o = false ->
+  fst (bstep s o) = s.
+Proof. exact bstep_all_computed. Qed.
+Print Assumptions C10_batch_stable.
+
+Theorem C10_batch_raise_class_irrelevant : forall f its fin cs ops,
+  run_batch (map (recls_ispec f) its) fin cs (map (recls_bop f) ops) = run_batch its fin cs ops.
+Proof. exact batch_raise_class_irrelevant. Qed.
+Print Assumptions C10_batch_raise_class_irrelevant.
 
 Theorem C10_any_raise_class_irrelevant : forall f c, run_any (recls_case f c) = run_any c.
 Proof. exact any_raise_class_irrelevant. Qed.
@@ -297,8 +305,8 @@ Theorem C10_task_provider_class_irrelevant : forall f ph fin ops, gen_cls_ok f -
 Proof. exact task_provider_class_irrelevant. Qed.
 Print Assumptions C10_task_provider_class_irrelevant.
 
-Theorem C10_batch_provider_class_irrelevant : forall f its fin ops,
-  run_batch its (recls_pout f fin) ops = run_batch its fin ops.
+Theorem C10_batch_provider_class_irrelevant : forall f its fin cs ops,
+  run_batch its (recls_pout f fin) cs ops = run_batch its fin cs ops.
 Proof. exact batch_provider_class_irrelevant. Qed.
 Print Assumptions C10_batch_provider_class_irrelevant.
 
